@@ -1,6 +1,7 @@
 package eng
 
 import (
+	"errors"
 	"time"
 	"bytes"
 	"crypto/sha256"
@@ -571,6 +572,19 @@ func (o *seqOracle) afterStop(in *seqInst, err error) {
 	if err == nil {
 		o.fail("C17", "sequencer-stopped-without-error", "RunSequencer of instance %d returned nil", in.id)
 	}
+	var sunset ctlog.SunsetLogError
+	if errors.As(err, &sunset) {
+		// the read-only date: legitimate only if the scenario armed it and the date has really passed;
+		// the error must carry the final tree head, i.e. the last tree this instance committed
+		if !in.sunsetArmed || time.Since(in.cfg.NotAfterLimit) < ctlog.ReadOnlyAfter {
+			o.fail("C17", "sunset-stop-before-read-only-date", "RunSequencer of instance %d stopped with SunsetLogError although the read-only date has not passed", in.id)
+		}
+		if n, root, ts := in.log.VerifTree(); sunset.FinalTree.N != n || [32]byte(sunset.FinalTree.Hash) != root || sunset.FinalTimestamp != ts {
+			o.fail("C17", "sunset-final-tree-wrong", "SunsetLogError of instance %d carries (size %d, ts %d) but the instance's tree is (size %d, ts %d)", in.id, sunset.FinalTree.N, sunset.FinalTimestamp, n, ts)
+		}
+		in.sunsetStopped = true
+		w.st.Count("stop:sunset")
+	}
 	// every pending submitter gets exactly one outcome promptly, and it is an error
 	for _, s := range w.subs {
 		if s.inst != in || s.gen != in.gen || s.got || s.dropped || s.source == "" {
@@ -593,6 +607,16 @@ func (o *seqOracle) afterStop(in *seqInst, err error) {
 
 // onSubmitAfterStop: a submission made after the sequencer stopped must fail.
 func (o *seqOracle) checkAfterStopSub(s *seqSub) {
+	if s.inst.sunsetStopped && s.afterStop && s.got && s.err != nil {
+		o.w.st.Count("submit-after-sunset:failed")
+	}
+	if s.inst.sunsetStopped && s.afterStop && s.got && s.err != nil && s.source != "ratelimit" {
+		// after the read-only date every submission must be answered with the sunset error (HTTP 410 Gone)
+		var sunset ctlog.SunsetLogError
+		if !errors.As(s.err, &sunset) {
+			o.fail("C17", "submission-after-sunset-not-gone", "entry %d submitted to instance %d after the read-only stop failed with %q, not with the sunset error", s.entry.ID, s.inst.id, s.err.Error())
+		}
+	}
 	if s.inst.stopped && s.inst.runseqMode && s.got && s.err == nil && s.afterStop {
 		o.fail("C17", "submission-after-stop-succeeded", "entry %d submitted to instance %d after its sequencer stopped was acknowledged", s.entry.ID, s.inst.id)
 	}
